@@ -244,15 +244,16 @@ def dropFksOnCol (t : Table) (col : String) : Nat → M Table
     let t' ← (if f.column == col then t.forgetForeignKey k else pure t : M Table)
     dropFksOnCol t' col k
 
-/-- `removeColumn`: unknown ⇒ append a `remove` record; created in this history (`add`) ⇒ forget the column, strip it
-    from the indexes (dropping the ones left empty) and drop the foreign keys on it; otherwise ⇒ `remove` -/
+/-- `removeColumn`: unknown ⇒ append a `remove` record; created in this history (`add`, or `rename`: a renamed record
+    is one that was created here, FX-renamed-column-dropped) ⇒ forget the column, strip it from the indexes (dropping the
+    ones left empty) and drop the foreign keys on it; otherwise ⇒ `remove` -/
 def removeColumn (t : Table) (name : String) : M Table :=
   match t.colIdx.get? name with
   | none => pure { t with cols := t.cols ++ [{ name := name, action := .remove }],
                           colIdx := t.colIdx.set name t.cols.length }
   | some id => do
     let c ← getIdx "removeColumn" t.cols id
-    if c.action == .add then do
+    if c.action == .add || c.action == .rename then do
       let t1 := { t with cols := t.cols.eraseIdx id,
                          colIdx := (t.colIdx.erase name).mapVals (fun v => if v > id then v - 1 else v) }
       let t2 ← stripColFromIndexes t1 name t1.idxs.length
